@@ -1,18 +1,91 @@
 package zap
 
-// Native side of the modelled environment (used only when a harness is
-// replayed on the real build).
+// Native side of the modelled environment, used only when a harness is replayed on the real build:
+// the virtual paths live in a fresh temporary directory, handle/mapping counts come from /proc.
 
-func vNativeReset() {}
+import (
+	"os"
+	"path/filepath"
+	"strings"
+	"syscall"
+)
 
-// ---- virtual file system (engine) / real temporary directory (native)
+var vNativeDir string
 
-func vFSExists(path string) bool         { panic("vFS: native implementation pending") }
-func vFSBytes(path string) []byte        { panic("vFS: native implementation pending") }
-func vFSPut(path string, b []byte)       { panic("vFS: native implementation pending") }
-func vFSOpenHandles() int                { panic("vFS: native implementation pending") }
-func vFSLiveMappings() int               { panic("vFS: native implementation pending") }
-func vFSEvents(prefix string) int        { panic("vFS: native implementation pending") }
-func vFSFailWrites(path string)          { panic("vFS: native implementation pending") }
-func vFSFaulted() bool                   { panic("vFS: native implementation pending") }
-func vFSFailOpen(kind string)            { panic("vFS: native implementation pending") }
+func vNativeReset() {
+	// undo a lowered file-size limit of a previous case
+	var rl syscall.Rlimit
+	if syscall.Getrlimit(syscall.RLIMIT_FSIZE, &rl) == nil && rl.Cur != rl.Max {
+		rl.Cur = rl.Max
+		_ = syscall.Setrlimit(syscall.RLIMIT_FSIZE, &rl)
+	}
+	if vNativeDir != "" {
+		_ = os.RemoveAll(vNativeDir)
+	}
+	vNativeDir, _ = os.MkdirTemp("", "zapx-verif-replay-")
+}
+
+// vP maps a virtual file name to the path handed to the code under test.
+func vP(name string) string {
+	if vNativeDir == "" {
+		vNativeReset()
+	}
+	return filepath.Join(vNativeDir, name)
+}
+
+func vFSExists(path string) bool {
+	_, err := os.Stat(path)
+	return err == nil
+}
+
+func vFSBytes(path string) []byte {
+	b, _ := os.ReadFile(path)
+	return b
+}
+
+func vFSPut(path string, b []byte) { _ = os.WriteFile(path, b, 0600) }
+
+// vFSOpenHandles counts this process's descriptors that point into the replay directory.
+func vFSOpenHandles() int {
+	n := 0
+	ents, _ := os.ReadDir("/proc/self/fd")
+	for _, e := range ents {
+		if t, err := os.Readlink("/proc/self/fd/" + e.Name()); err == nil && strings.HasPrefix(t, vNativeDir+"/") {
+			n++
+		}
+	}
+	return n
+}
+
+// vFSLiveMappings counts memory mappings of files in the replay directory.
+func vFSLiveMappings() int {
+	b, _ := os.ReadFile("/proc/self/maps")
+	n := 0
+	for _, l := range strings.Split(string(b), "\n") {
+		if strings.Contains(l, vNativeDir+"/") {
+			n++
+		}
+	}
+	return n
+}
+
+// vFSEvents: the event ledger exists only in the model; natively unknown (-1).
+func vFSEvents(prefix string) int { return -1 }
+
+// vFSFailWrites arms the write fault recorded in the replay inputs: the file-size limit is lowered to the
+// number of bytes the model accepted, so that the write crossing it fails (EFBIG) at the same byte.
+func vFSFailWrites(path string) {
+	if vIn("fault.armed") == 0 {
+		return
+	}
+	_ = path
+	rl := syscall.Rlimit{}
+	if syscall.Getrlimit(syscall.RLIMIT_FSIZE, &rl) == nil {
+		rl.Cur = vIn("fault.offset")
+		_ = syscall.Setrlimit(syscall.RLIMIT_FSIZE, &rl)
+	}
+}
+
+func vFSFaulted() bool { return vIn("fault.armed") != 0 }
+
+func vFSFailOpen(kind string) {}
